@@ -43,10 +43,71 @@ fn wal_manifest_short() -> i32 {
     }
 }
 
+use nervusdb_storage::engine::GraphEngine;
+
+fn make_db(d: &std::path::Path, ids: &[u64]) -> (std::path::PathBuf, std::path::PathBuf) {
+    let ndb = d.join("t.ndb");
+    let wal = d.join("t.wal");
+    let e = GraphEngine::open(&ndb, &wal).unwrap();
+    for id in ids {
+        let mut tx = e.begin_write();
+        tx.create_node(*id, 0).unwrap();
+        tx.commit().unwrap();
+    }
+    drop(e);
+    (ndb, wal)
+}
+
+fn append_bytes(p: &std::path::Path, b: &[u8]) {
+    let mut f = std::fs::OpenOptions::new().append(true).open(p).unwrap();
+    f.write_all(b).unwrap();
+}
+
+/// C17.wal.next_record.never_err_on_tail: open must succeed and see the committed nodes whatever
+/// bytes follow the last complete record.
+fn c17_tail(name: &str, tail: &[u8]) -> i32 {
+    let d = tmpdir(name);
+    let (ndb, wal) = make_db(&d, &[10, 11]);
+    append_bytes(&wal, tail);
+    let r = std::panic::catch_unwind(|| GraphEngine::open(&ndb, &wal).map(|e| (e.lookup_internal_id(10), e.lookup_internal_id(11))));
+    let _ = std::fs::remove_dir_all(&d);
+    match r {
+        Ok(Ok((Some(_), Some(_)))) => { println!("conforms: open succeeded and both committed nodes are present"); 0 }
+        Ok(Ok(x)) => { println!("VIOLATION reproduced: open succeeded but committed nodes are missing: {:?}", x); 1 }
+        Ok(Err(e)) => { println!("VIOLATION reproduced: open failed on a log tail of {} bytes {:02x?}..: {}", tail.len(), &tail[..tail.len().min(8)], e); 1 }
+        Err(_) => { println!("VIOLATION reproduced: open panicked"); 1 }
+    }
+}
+
+/// C17.wal.append.at_end_of_valid: commits acknowledged after a tolerated tail must survive reopen.
+fn c17_commit_after_tail(tail: &[u8]) -> i32 {
+    let d = tmpdir("commit-after-tail");
+    let (ndb, wal) = make_db(&d, &[10]);
+    append_bytes(&wal, tail);
+    {
+        let e = match GraphEngine::open(&ndb, &wal) { Ok(e) => e, Err(e) => { println!("VIOLATION reproduced: open failed: {e}"); return 1; } };
+        let mut tx = e.begin_write();
+        let n = tx.create_node(20, 0).unwrap();
+        tx.set_node_property(n, "k".to_string(), nervusdb_api::PropertyValue::Int(42));
+        tx.commit().unwrap();
+    }
+    let e = match GraphEngine::open(&ndb, &wal) { Ok(e) => e, Err(e) => { println!("VIOLATION reproduced: second reopen failed: {e}"); return 1; } };
+    let iid = e.lookup_internal_id(20);
+    let v = iid.and_then(|i| { use nervusdb_api::{GraphSnapshot, GraphStore}; e.snapshot().node_property(i, "k") });
+    drop(e);
+    let _ = std::fs::remove_dir_all(&d);
+    if v == Some(nervusdb_api::PropertyValue::Int(42)) { println!("conforms: the transaction committed after the tolerated tail survived reopen"); 0 }
+    else { println!("VIOLATION reproduced: node 20 with k=42 was committed (commit returned Ok) after a tolerated {}-byte tail; after reopen node={:?} k={:?}", tail.len(), iid, v); 1 }
+}
+
 fn main() {
     let a: Vec<String> = std::env::args().collect();
     let code = match a.get(1).map(|s| s.as_str()) {
         Some("wal_manifest_short") => wal_manifest_short(),
+        Some("c17_tail_big_len") => c17_tail("big-len", &[0xFF, 0xFF, 0xFF, 0xFF]),
+        Some("c17_tail_zero_fill") => c17_tail("zero-fill", &[0u8; 64]),
+        Some("c17_tail_garbage") => c17_tail("garbage", &[0x01, 0x02]),
+        Some("c17_commit_after_tail") => c17_commit_after_tail(&[0x01, 0x02]),
         _ => { eprintln!("unknown scenario"); 2 }
     };
     std::process::exit(code);
